@@ -69,6 +69,38 @@ theorem exactly_one (env : Env) (m : Msg) (he : Established env m) (hw : m.w = t
     · split <;> rfl
     · rfl
 
+/-- an equipment handler with nothing registered (used by the examples) -/
+def eq : Env := { builtin := Gen.Callbacks.builtinGemEquipmentHandler }
+
+/-- generated facts about the callback table: `_call` runs the registered callback before the handler's own `_on_sXXfYY`,
+`__contains__` accepts either, and `_handle_stream_function` has no condition in front of the callback other than the
+`not in self._callback_handler` test (in particular none on the catalogue) -/
+theorem callback_table :
+    Gen.Callbacks.registeredFirst = true ∧ Gen.Callbacks.containsEither = true ∧ Gen.Callbacks.unknownIffNoCallback = true := by
+  decide
+
+/-- a registered callback is the one that runs, also where the handler class has a built-in for the same S/F; without one
+the built-in runs; `hasCallback` holds exactly when one of them runs -/
+theorem registered_callback_wins (env : Env) (s f : Nat) :
+    (env.user.contains (s, f) = true → selects env s f = .user) ∧
+    (env.user.contains (s, f) = false → env.builtin.contains (s, f) = true → selects env s f = .builtin) ∧
+    (hasCallback env s f = true ↔ selects env s f ≠ .none) := by
+  have h : Gen.Callbacks.registeredFirst = true := rfl
+  refine ⟨?_, ?_, ?_⟩
+  · intro hu
+    have hu' : (s, f) ∈ env.user := by simpa using hu
+    simp [selects, h, hu']
+  · intro hu hb
+    have hu' : (s, f) ∉ env.user := by simpa using hu
+    have hb' : (s, f) ∈ env.builtin := by simpa using hb
+    simp [selects, h, hu', hb']
+  · unfold hasCallback selects
+    simp only [h, if_true]
+    cases env.user.contains (s, f) <;> cases env.builtin.contains (s, f) <;> simp
+
+/-- non-vacuity: S1F1 on the equipment class with and without a registered callback -/
+example : selects { eq with user := [(1, 1)] } 1 1 = .user ∧ selects eq 1 1 = .builtin ∧ selects eq 64 1 = .none := by decide +kernel
+
 /-- the shipped catalogue has S9F5, and every stream with a built-in callback (either handler class) has a function 0 -/
 theorem catalogue_has_replies :
     Gen.Callbacks.catalogue.contains (9, 5) = true ∧
@@ -102,8 +134,7 @@ theorem exactly_one_builtin (env : Env) (m : Msg) (he : Established env m) (hw :
   · exact Or.inl ho
   · exact Or.inr ⟨ho, Or.inr h0⟩
 
-/-- non-vacuity: an equipment handler, S1F3 W with a callback that replies / raises, S99F1 W without callback -/
-def eq : Env := { builtin := Gen.Callbacks.builtinGemEquipmentHandler }
+/-- non-vacuity: S1F3 W with a callback that replies / raises, S99F1 W without callback -/
 example : handle { eq with outcome := fun _ => .reply 1 4 } ⟨1, 3, true, 7, []⟩ = [.data 1 4 false 7 .fn] := by decide +kernel
 example : handle { eq with outcome := fun _ => .raises } ⟨1, 3, true, 7, []⟩ = [.data 1 0 false 7 .empty] := by decide +kernel
 example : handle eq ⟨99, 1, true, 7, [0, 0, 227, 1, 0, 0, 0, 0, 0, 7]⟩ = [.data 9 5 false 7 (.header [0, 0, 227, 1, 0, 0, 0, 0, 0, 7])] := by
